@@ -1155,9 +1155,37 @@ func c04Run(r *Run) {
 				}
 				helperOf[cal] = lv
 				h := analyse(declOf[cal])
+				completesRight := d == 0 && !appliedToOwnLeft(fd, c)
 				for _, g := range h.guards {
 					g.prefix = false
-					lv.guards = append(lv.guards, g)
+					// a helper that completes a *right* operand under construction (the literal split from a signed
+					// number token: `$a -2 ** 2 * 3`) re-enters the ladder with that operand as its left side: each
+					// operator it consumes belongs to the level that consumes the same operator on the chain, and
+					// is judged there (same operand parsers, same associativity)
+					owner := lv
+					if completesRight {
+						for _, cl := range chain {
+							if cl == lv {
+								continue
+							}
+							for _, cg := range cl.guards {
+								if cg.prefix || !cg.hasNext || cg.suffix {
+									continue
+								}
+								for _, a := range cg.toks {
+									for _, b := range g.toks {
+										if a == b {
+											owner = cl
+										}
+									}
+								}
+							}
+						}
+					}
+					if owner != lv && g.kind == "if" {
+						g.kind = "for" // one step of the owner's chain; the owner's own loop or recursion supplies the rest
+					}
+					owner.guards = append(owner.guards, g)
 				}
 				helperGuards[cal] = h.guards
 				addHelpers(declOf[cal], d+1)
@@ -1655,6 +1683,21 @@ func c04Signed(r *Run, ppkg *packages.Package, lv *c04Level, g *opGuard, mul *c0
 			if mul != nil {
 				if cal == mul.obj || helperOf[cal] == mul {
 					cont = true
+				} else if hd := declOf(ppkg, cal); hd != nil && hd.Body != nil && depthNow < 2 {
+					// a completion helper that handles a tighter operator first and then hands the operand to
+					// the multiplicative level (parseSignedLiteralRest: `**`, then parseFactorRest)
+					takesOperand := false
+					sig := cal.Type().(*types.Signature)
+					for i := 0; i < sig.Params().Len(); i++ {
+						if isNamed(sig.Params().At(i).Type(), modPath+"/data", "GetValue") {
+							takesOperand = true
+						}
+					}
+					if takesOperand {
+						depthNow++
+						scan(hd.Body, depthNow)
+						depthNow--
+					}
 				}
 				for _, mg := range mul.guards {
 					if mg.fn != nil {
